@@ -353,3 +353,29 @@ def _(self, data: Map('str', Val), encoder: Obj("Encoder")):
     # the result is a whole number of octets whatever the position it started at
     requires(self.additions is None or len(self.additions) < 1000)
     ensures(encoder.number_of_bits % 8 == 0)
+
+
+fields("KnownMultiplierStringType", number_of_bytes=Opt(Nat), ENCODING=Str)
+
+
+@contract("KnownMultiplierStringType.encode", props=["C06", "C01"], for_class="*")
+def _(self, data: Str, encoder: Obj("Encoder")):
+    refines("Type.encode")
+    # X.696 15: a fixed-size string is written without a length determinant, so the decoder will read back exactly
+    # number_of_bytes octets: the text must encode to exactly that many octets.  For UTF8String (not a known-multiplier
+    # type) that fails for multi-byte characters: known finding F27.
+    requires(self.number_of_bytes is None or len(data) == self.number_of_bytes)   # SIZE counts characters: check_constraints (C11)
+    known("F27", self.number_of_bytes is not None and len(text_encode(data, self.ENCODING)) != len(data))
+    raises(EncodeError, when=self.number_of_bytes is None)
+    ensures(implies(self.number_of_bytes is not None,
+                    encoder.number_of_bits == old(encoder.number_of_bits) + 8 * self.number_of_bytes))
+    ensures(implies(self.number_of_bytes is None and len(text_encode(data, self.ENCODING)) < 128,
+                    encoder.number_of_bits == old(encoder.number_of_bits) + 8 + 8 * len(text_encode(data, self.ENCODING))))
+
+
+@contract("KnownMultiplierStringType.decode", props=["C06", "C01", "C16", "C08"], for_class="*")
+def _(self, decoder: Obj("Decoder")) -> Str:
+    refines("Type.decode")
+    opaque("oer_ld_size", "oer_ld_val", "oer_first")
+    ensures(implies(self.number_of_bytes is not None,
+                    decoder.number_of_bits == old(decoder.number_of_bits) - 8 * self.number_of_bytes))
